@@ -59,6 +59,10 @@ struct Cx<'tcx> {
 }
 
 impl<'tcx> Cx<'tcx> {
+    fn dpath(&self, d: DefId) -> String {
+        format!("{}{}", self.tcx.crate_name(d.krate), self.tcx.def_path(d).to_string_no_crate_verbose())
+    }
+
     fn krate_of(&self, d: DefId) -> String {
         self.tcx.crate_name(d.krate).to_string()
     }
@@ -401,6 +405,19 @@ impl<'tcx> Cx<'tcx> {
         }
         match c.const_.eval(self.tcx, self.env, c.span) {
             Ok(v) => {
+                if let ty::Adt(ad, _) = t.kind() {
+                    if ad.is_enum() {
+                        if let Some(dc) = self.tcx.try_destructure_mir_constant_for_user_output(v, t) {
+                            let fs: Vec<String> = dc.fields.iter().map(|(fv, ft)| self.decode_const_value(*fv, *ft)).collect();
+                            return format!(
+                                "{{\"const\":{{\"ty\":{},\"enum_variant\":{},\"fields\":{}}}}}",
+                                tys,
+                                dc.variant.map(|x| x.as_usize().to_string()).unwrap_or("null".into()),
+                                jlist(&fs)
+                            );
+                        }
+                    }
+                }
                 let d = self.decode_const_value(v, t);
                 if let ConstValue::Scalar(Scalar::Int(_)) = v {
                     format!("{{\"const\":{{\"ty\":{},\"v\":{}}}}}", tys, d)
@@ -422,6 +439,11 @@ impl<'tcx> Cx<'tcx> {
             Operand::Copy(p) => format!("{{\"copy\":{}}}", self.place(body, p)),
             Operand::Move(p) => format!("{{\"move\":{}}}", self.place(body, p)),
             Operand::Constant(c) => self.konst(c, work),
+            Operand::RuntimeChecks(rc) => format!(
+                "{{\"const\":{{\"ty\":{{\"k\":\"bool\"}},\"v\":\"{}\",\"rtcheck\":{}}}}}",
+                if rc.value(self.tcx.sess) { 1 } else { 0 },
+                jstr(&format!("{:?}", rc))
+            ),
             #[allow(unreachable_patterns)]
             other => format!("{{\"otherop\":{}}}", jstr(&format!("{:?}", other))),
         }
@@ -518,8 +540,9 @@ impl<'tcx> Cx<'tcx> {
                 None
             };
             let mut s = format!(
-                "\"name\":{},\"ckrate\":{},\"cargs\":{},\"unsafe\":{}",
+                "\"name\":{},\"dname\":{},\"ckrate\":{},\"cargs\":{},\"unsafe\":{}",
                 jstr(&self.tcx.def_path_str(*cd)),
+                jstr(&self.dpath(*cd)),
                 jstr(&self.krate_of(*cd)),
                 jstr(&format!("{:?}", cargs)),
                 is_unsafe
@@ -627,10 +650,11 @@ fn export_mono<'tcx>(cx: &Cx<'tcx>, out: &mut String) {
         };
         let _ = write!(
             out,
-            "{{\"id\":{},\"name\":{},\"path\":{},\"krate\":{},\"kind\":\"{}\",\"unsafe\":{},\"targs\":{}",
+            "{{\"id\":{},\"name\":{},\"path\":{},\"dpath\":{},\"krate\":{},\"kind\":\"{}\",\"unsafe\":{},\"targs\":{}",
             my_id,
             jstr(&format!("{}", inst)),
             jstr(&tcx.def_path_str(did)),
+            jstr(&cx.dpath(did)),
             jstr(tcx.crate_name(did.krate).as_str()),
             kind,
             is_unsafe,
@@ -862,8 +886,9 @@ fn export_poly<'tcx>(cx: &Cx<'tcx>, out: &mut String) {
         };
         let _ = write!(
             out,
-            "{{\"path\":{},\"kind\":\"{:?}\",\"unsafe\":{},\"vis\":{},\"span\":{},",
+            "{{\"path\":{},\"dpath\":{},\"kind\":\"{:?}\",\"unsafe\":{},\"vis\":{},\"span\":{},",
             jstr(&tcx.def_path_str(did)),
+            jstr(&cx.dpath(did)),
             dk,
             is_unsafe,
             jstr(&vis),
